@@ -217,6 +217,13 @@ func (c *Check) Finish(seed int, writeEvidence bool) int {
 				"teleport_blocks":    c.P.NBlocks,
 				"anchor_functions":   fnames,
 			},
+			"normal_form": func() map[string]interface{} {
+				if c.P.inl == nil {
+					return map[string]interface{}{"enabled": false}
+				}
+				return map[string]interface{}{"enabled": true, "helper_call_sites_inlined": c.P.inl.nSites, "continuations_threaded": c.P.inl.nThreaded,
+					"rule": "static calls to in-repository functions whose names do not occur in the rule sources / frozen tables are replaced by the callee's body before any rule is evaluated; call graphs are built from the program as written"}
+			}(),
 			"known_findings_hit": len(knownHit),
 			"vacuous_rules":      vac,
 			"checker_cmd":        strings.Join(os.Args, " "),
